@@ -793,6 +793,18 @@ func (fr *Frame) appendStructElems(s, more SV, hasMore bool, res, newLen string,
 		}
 		fc.emit(fmt.Sprintf("(assert (forall ((p Ptr)) (! (= (select %s p) (ite %s (ite (< %s %s) %s %s) (select %s p))) :pattern ((select %s p)))))",
 			h, inWin, rel, slen(s.t), oldv, newv, prev, h))
+		// the same facts indexed by the element number j (consequences of the axiom above, stated in the shape `x[j].f` has in
+		// invariants so that they are found by matching instead of arithmetic): old elements are kept, the appended ones follow
+		at := func(comp, arr, off, j string) string {
+			return fmt.Sprintf("(select %s (Fld (Elem %s %s) %s))", comp, arr, idx(off, j), fk)
+		}
+		fc.emit(fmt.Sprintf("(assert (forall ((j Int)) (! (=> (and (<= 0 j) (< j %s)) (= %s %s)) :pattern (%s))))",
+			slen(s.t), at(h, sarr(res), soff(res), "j"), at(prev, sarr(s.t), soff(s.t), "j"), at(h, sarr(res), soff(res), "j")))
+		if hasMore {
+			fc.emit(fmt.Sprintf("(assert (forall ((k Int)) (! (=> (and (<= 0 k) (< k %s)) (= %s %s)) :pattern (%s))))",
+				slen(more.t), at(h, sarr(res), soff(res), "(+ "+slen(s.t)+" k)"), at(prev, sarr(more.t), soff(more.t), "k"), at(h, sarr(res), soff(res), "(+ "+slen(s.t)+" k)")))
+			fc.emit(fmt.Sprintf("(assert (=> (= %s 1) (= %s %s)))", slen(more.t), at(h, sarr(res), soff(res), slen(s.t)), at(prev, sarr(more.t), soff(more.t), "0")))
+		}
 		fc.noteWrite(ck)
 		st.heap[ck] = h
 	}
